@@ -1,14 +1,15 @@
 """C13 helpers: call-shape table, source generation, value rendering and the child-side prelude.
 
 Values travel in the representation of spec/Builtins.tla: a triple [tag, sub, payload]
-  tag      None bool int big float fnan finf str bytes bytearray list tuple set frozenset dict type
+  tag      None bool int big float fnan finf str bytes bytearray list tuple set frozenset dict type exc
   sub      ""   exact builtin type
            "S"  subclass without overrides         (class list_S(list): pass)
            "O"  subclass overriding the optimised methods (every override returns 'ovr', __len__ returns 7)
   payload  int: the number (scaled shapes: 8-bit image, see `embed`); big: +1/-1 (= +-2**70);
            float: number of quarters (k/4), fnan: 0, finf: +1/-1, fnz (negative zero): 0;
            str/bytes/bytearray: sequence of code points / byte values; list/tuple: sequence of values;
-           set/frozenset: set of values (JSON array); dict: sequence of [key, value]; type: names
+           set/frozenset: set of values (JSON array); dict: sequence of [key, value]; type: names;
+           exc: [class name, argument] = the exception instance cls(argument) ("S": instance of a plain subclass)
 The canonical observation form (child side `canon`, harness side `canon_of_spec`) is a JSON-able
 nested list that keeps the exact result type (subclass instances show their class name).
 """
@@ -76,6 +77,8 @@ def pyexpr(v, w=None):
         e = "frozenset([" + ", ".join(pyexpr(x, w) for x in p) + "])"
     elif tag == "dict":
         e = "{" + ", ".join(pyexpr(k, w) + ": " + pyexpr(x, w) for k, x in p) + "}"
+    elif tag == "exc":
+        return "%s%s(%s)" % (p[0], "_" + sub if sub else "", pyexpr(p[1], w))
     else:
         raise ValueError("pyexpr: %r" % (v,))
     if sub:
@@ -112,6 +115,8 @@ def canon_of_spec(v, w=None):
         return [name, sorted((canon_of_spec(x, w) for x in p), key=json.dumps)]
     if tag == "dict":
         return [name, [[canon_of_spec(k, w), canon_of_spec(x, w)] for k, x in p]]
+    if tag == "exc":
+        return ["exc", p[0] + ("_" + sub if sub else ""), [canon_of_spec(p[1], w)]]
     raise ValueError("canon_of_spec: %r" % (v,))
 
 
@@ -146,6 +151,10 @@ for _b in (int, float, str, bytes, bytearray, list, tuple, set, frozenset, dict)
         _c = _mk(_b, _s)
         globals()[_c.__name__] = _c
 
+for _b in (KeyError, LookupError, ValueError):
+    _c = _mk(_b, "S")
+    globals()[_c.__name__] = _c
+
 _EXACT = {int: "int", float: "float", str: "str", bytes: "bytes", bytearray: "bytearray", list: "list",
           tuple: "tuple", set: "set", frozenset: "frozenset", dict: "dict"}
 
@@ -179,7 +188,17 @@ def canon(v, depth=0):
         return [name, [[canon(k, depth + 1), canon(x, depth + 1)] for k, x in dict.items(v)]]
     if isinstance(v, type):
         return ["type", v.__name__]
+    if isinstance(v, BaseException):
+        return ["exc", name, [canon(x, depth + 1) for x in v.args]]
     return ["obj", name]
+
+
+def exc_data(e):
+    """the arguments of a raised exception (data of the call where the spec models them, e.g. KeyError(key))"""
+    try:
+        return [canon(x, 1) for x in e.args]
+    except Exception as e2:
+        return ["unreadable", type(e2).__name__]
 
 
 def run(fname, argsrc, mut):
@@ -191,7 +210,7 @@ def run(fname, argsrc, mut):
     except RecursionError:
         raise
     except Exception as e:
-        r = ["e", type(e).__name__]
+        r = ["e", type(e).__name__, exc_data(e)]
     post = canon(args[0]) if mut else None
     return _json.dumps([r, post], separators=(",", ":"))
 '''
@@ -321,9 +340,10 @@ SHAPES = [
     Shape("d_get2", "d k v", "d.get(k, v)", ["u", T("dict", d="dict")], mut=True, group="dict"),
     Shape("d_setdefault1", "d k", "d.setdefault(k)", ["u", T("dict", d="dict")], mut=True, group="dict"),
     Shape("d_setdefault2", "d k v", "d.setdefault(k, v)", ["u", T("dict", d="dict")], mut=True, group="dict"),
-    Shape("d_pop1", "d k", "d.pop(k)", ["u", T("dict", d="dict")], mut=True, group="dict"),
+    Shape("d_pop1", "d k", "d.pop(k)", ["u", T("dict", d="dict"), T("dictk", ("k",), d="dict")], mut=True, group="dict"),
     Shape("d_pop2", "d k v", "d.pop(k, v)", ["u", T("dict", d="dict")], mut=True, group="dict"),
     Shape("d_contains", "d k", "k in d", ["u", T("dict", d="dict")], mut=True, group="dict"),
+    Shape("d_getitem", "d k", "d[k]", ["u", T("dict", d="dict"), U("k"), T("dictk", ("k",), d="dict")], mut=True, group="dict"),
     Shape("d_keys", "d", "list(d.keys())", ["u", T("dict", d="dict")], mut=True, group="dict"),
     Shape("d_values", "d", "list(d.values())", ["u", T("dict", d="dict")], mut=True, group="dict"),
     Shape("d_items", "d", "list(d.items())", ["u", T("dict", d="dict")], mut=True, group="dict"),
@@ -347,7 +367,7 @@ SHAPES = [
     # ---- set methods
     Shape("s_add", "s v", "s.add(v)", ["u", T("set", s="set")], mut=True, group="set"),
     Shape("s_discard", "s v", "s.discard(v)", ["u", T("set", s="set")], mut=True, group="set"),
-    Shape("s_remove", "s v", "s.remove(v)", ["u", T("set", s="set")], mut=True, group="set"),
+    Shape("s_remove", "s v", "s.remove(v)", ["u", T("set", s="set"), U("v"), T("setk", ("v",), s="set")], mut=True, group="set"),
     Shape("s_contains", "s v", "v in s", ["u", T("set", s="set"), T("frozenset", s="frozenset")], mut=True, group="set"),
     Shape("s_clear", "s", "s.clear()", ["u", T("set", s="set")], mut=True, group="set"),
     Shape("s_pop", "s", "s.pop()", ["u", T("set", s="set")], mut=True, group="set"),
